@@ -5,6 +5,8 @@ CONSTANTS
   AB_H = 9
   AB_N = 5
   U_H = 5
+  RAW_H = 5
+  RAW_N = 3
   U_N = 3
 INVARIANTS TypeOK ReadsInBounds Refines ResultInside
 POSTCONDITION Emit
